@@ -51,11 +51,11 @@ def check_case(case, stats=None, K=oracle.K_QUICK):
         stats.evaluations += 1
     if "error" in res:
         desc = res["error"]["description"]
-        if case.get("expect") == "compile-or-out-of-registers" and "out of registers" not in desc:
+        if case.get("expect") == "compile-or-out-of-registers" and not oracle.out_of_registers(desc):
             raise Violation("C04:rejected-for-another-reason:" + oracle.norm_error(desc), {"opts": opts, "error": desc[:400]})
         if stats is not None:
-            stats.discarded["reject:" + ("registers" if "out of registers" in desc else oracle.norm_error(desc))] += 1
-            if "out of registers" in desc:
+            stats.discarded["reject:" + ("registers" if oracle.out_of_registers(desc) else oracle.norm_error(desc))] += 1
+            if oracle.out_of_registers(desc):
                 stats.classes["rejected-out-of-registers"] += 1
                 if case.get("locals"):
                     stats.classes["rejected-with-locals=%d" % case["locals"]] += 1
